@@ -178,6 +178,9 @@ def answer (toks : List String) : String :=
     -- round 4: the outcome of `obj.m()` derived from the regenerated method bodies
     -- (`Model/RecurrenceStruct.lean`, `Generated/StructC07.lean`)
     showRun (runPublic cls ⟨s == "1", su == "1", th == "1", mv == "1", d == "1", t == "1"⟩ m)
+  | ["dline", n, mask, r] =>
+    -- round 4: `diagline_dist` as the method computes it (also on asymmetric matrices)
+    showNats (diaglineDist (boolMat r) n.toNat! (if mask == "none" then none else some (bools mask)))
   | ["rr", n, r] => showOptRat (recurrenceRate (boolMat r) n.toInt!)
   | ["crr", n, m, r] => showOptRat (crossRecurrenceRate (boolMat r) n.toInt! m.toInt!)
   | ["rprob", n, lag, r] => showOptRat (recurrenceProbability (boolMat r) n.toInt! lag.toNat!)
